@@ -132,4 +132,15 @@ def Edit.Effect (f : List Nat) (m m' : WMol) : Edit → Prop
   | .atomTypeModify i r c => ∃ x a, f[i]? = some x ∧ m.atoms[x]? = some a ∧
       m'.atoms[x]? = some { a with radicals := r, charge := c } ∧ AtomsSameExcept m m' x ∧ m'.bonds = m.bonds
 
+/-! ## Connectedness -/
+
+/-- `a` and `b` are joined by a bond of `p` -/
+def Adj (p : WMol) (a b : Nat) : Prop := ∃ e ∈ p.bonds, e.joins a b = true
+
+/-- `b` can be reached from `a` along bonds of `p` -/
+inductive Conn (p : WMol) : Nat → Nat → Prop
+  | refl (a : Nat) : Conn p a a
+  | step {a b c : Nat} : Conn p a b → Adj p b c → Conn p a c
+
+
 end PGA.Rxn
